@@ -49,6 +49,8 @@ def run(chk):
         pass
     gen.append(('file', bytes([12, 12, 112, 97, 99, 107, 97, 103, 101, 12, 102, 12, 12, 12, 12, 12, 116, 121, 112, 101, 12, 12, 97, 103, 101, 12, 102, 12, 12, 12, 12, 12, 116, 121, 112, 101, 12, 12, 12, 12, 108, 91, 47, 47, 47, 91, 0, 0, 12, 54, 54, 12, 12, 12, 12, 12, 54, 54, 12, 12, 63, 12, 12, 12, 34]).decode()))
     gen += [(m, s) for _, m, s in streams.contexts(chk.tier != 'quick')]
+    from orch import interact
+    gen += [('file', t) for p_ in interact.programs() for t in [p_['text']] + p_['variants']] + [('file', t) for t in interact.invalid_programs()]
     gen = streams.dedup(gen)
     cases = [(dbg[m], s) for m, s in gen] + [('disk', s) for m, s in gen if m == 'file'][:: 4]
     for profile in ('debug', 'release'):
